@@ -29,6 +29,7 @@ class Ctx:
     info = {}           # details filled by harnesses (observed / expected / fingerprint)
     lex = False         # replay only: documents are written as a lexical variant of the same infoset
     bump = False        # replay only: messages with the default message ID carry a much later one
+    indent = False      # replay only: documents are pretty-printed (whitespace text between elements)
     mid = None          # messages built with the default message ID carry this text instead ('' = blank tag)
 
     @classmethod
@@ -42,6 +43,7 @@ class Ctx:
         cls.info = {}
         cls.lex = False
         cls.bump = False
+        cls.indent = False
         cls.mid = None
 
 
@@ -115,6 +117,11 @@ def render_lex(root):
 
 def doc_text(root):
     """The text of a document handed to the library in replay mode."""
+    if Ctx.indent:
+        import copy
+        root = copy.deepcopy(root)
+        ET.indent(root, space='  ')         # element-only content gets newline + indentation, as an NCS would send it
+        return '<?xml version="1.0" encoding="UTF-8"?>\n' + render(root) + '\n'
     return render_lex(root) if Ctx.lex else render(root)
 
 
